@@ -444,6 +444,30 @@ fn graph_family(c: &mut Cat, _rng: &mut Rng) {
         c.measure("graph.repatched_back_to_mono_same_size_again", Z, || { for _ in 0..reps.min(300) { po.process(&mut outer, sink); } });
         bb(outer[sink].buffers[0][0]);
     }
+    // HAND-OVER TO ANOTHER THREAD: a graph of `Send` nodes and its processor are primed on this thread (the set-up
+    // thread), moved to a fresh thread (the audio thread) and processed there: the processor has processed a graph of
+    // that size once, so nothing may allocate — whichever thread it runs on (measured inside that thread)
+    {
+        use dasp_graph::BoxedNodeSend;
+        type GS = petgraph::graph::Graph<NodeData<BoxedNodeSend>, ()>;
+        let mut g = GS::with_capacity(16, 32);
+        let srcs: Vec<_> = (0..6).map(|_| g.add_node(NodeData::new1(BoxedNodeSend::new(node::Pass)))).collect();
+        let mix = g.add_node(NodeData::new1(BoxedNodeSend::new(node::Sum)));
+        let out = g.add_node(NodeData::new1(BoxedNodeSend::new(node::Pass)));
+        for &s_ in &srcs { g.add_edge(s_, mix, ()); }
+        g.add_edge(mix, out, ());
+        let mut p = dasp_graph::Processor::<GS>::with_capacity(16);
+        p.process(&mut g, out);
+        let n = reps.min(200);
+        let d = std::thread::spawn(move || {
+            let a = snap();
+            for _ in 0..n { p.process(&mut g, out); }
+            let b = snap();
+            bb(g[out].buffers[0][0]);
+            (b.0 - a.0, b.1 - a.1, b.2 - a.2)
+        }).join().expect("audio thread");
+        c.results.push(("graph.moved_to_another_thread_after_priming_again".to_string(), d, Z));
+    }
     // a call that unwinds — a user node panics, or the documented panic for a missing node index — and
     // is caught by the host, which keeps using the same processor: "allocates nothing once a processor
     // has processed a graph of that size once", and the processor had (the failing call itself is not measured)
